@@ -165,7 +165,14 @@ func TestRaceLinearizable(t *testing.T) {
 			c := clock.Add(1)
 			history = append(history, porcupine.Operation{ClientId: ng, Input: opIn{Kind: "ins", Path: p, Val: fmt.Sprintf("%x", v)}, Call: c, Output: opOut{}, Return: clock.Add(1)})
 		}
-		sink := util.NewMemoryNodeDB()
+		// the store the savers write to: a memory store, or a level over a store that holds the initial nodes; the savers
+		// may ask for the deleted nodes to be removed there as well
+		var sink util.NodeDB = util.NewMemoryNodeDB()
+		sinkLevel := gen.Chance(rt, 50, "sinklevel")
+		if sinkLevel {
+			sink = util.NewLevelNodeDB(util.NewMemoryNodeDB(), util.NewMemoryNodeDB(), false)
+		}
+		saveDeletes := gen.Chance(rt, 60, "savedeletes")
 		start := make(chan struct{})
 		var wg sync.WaitGroup
 		for g := range scripts {
@@ -231,7 +238,7 @@ func TestRaceLinearizable(t *testing.T) {
 						case "root":
 							mpt.GetRoot()
 						case "save":
-							if err := mpt.SaveChanges(context.Background(), sink, false); err != nil {
+							if err := mpt.SaveChanges(context.Background(), sink, saveDeletes); err != nil {
 								out.Err = err.Error()
 							}
 						}
@@ -562,6 +569,7 @@ func TestRaceChangeSetSnapshots(t *testing.T) {
 		done := make(chan struct{})
 		var wg sync.WaitGroup
 		var snapshots atomic.Int64
+		sharedSink := util.NewLevelNodeDB(util.NewMemoryNodeDB(), util.NewMemoryNodeDB(), false)
 		// The readers pause where the change collector's read methods begin (verif-tag hook): with the trie's lock held
 		// around them, as it must be, the pause only delays the writer; a change set assembled from separately locked
 		// reads is torn by it.
@@ -603,6 +611,15 @@ func TestRaceChangeSetSnapshots(t *testing.T) {
 					case <-done:
 						return
 					default:
+					}
+					if (r == 1 || r == 2) && n%4 == 1 {
+						// two savers write the current change set (and remove the deleted nodes) into one level store at the
+						// same time as each other and as the writer
+						if err := mpt.SaveChanges(context.Background(), sharedSink, true); err != nil {
+							fail("SaveChanges into the shared level store: %v", err)
+							return
+						}
+						continue
 					}
 					if r == 0 && n%8 == 0 {
 						// a save that gives up at once; its worker goes on reading the cloned collector while the writer continues
